@@ -30,7 +30,7 @@ SPECS = {
     'C01': dict(
         invs=['A_C01_Returns', 'A_C01_Keys', 'A_C01_Values', 'A_C01_Digest'], props=[],
         fam=dict(quick=dict(n=3, ntypes=1, maxpars=(UNL,), maxws=(1, 2), backends=('fork', 'spawn', 'serial'),
-                            cached='all-subsets', reqs='rich'),
+                            cached='all-subsets', reqs='rich', busts=(False, True), sample=6500),
                  thorough=dict(n=3, ntypes=2, maxpars=(1, UNL), maxws=(1, 2, 3), backends=('fork', 'spawn', 'serial'),
                                cached='all-subsets', reqs='rich', busts=(False, True))),
         title='returned dict = requested tasks in order, each with its own reference value'),
@@ -64,7 +64,9 @@ SPECS = {
     'C05': dict(
         invs=['A_C05_AtRest'], props=[], wide=True,
         fam=dict(quick=[dict(n=3, ntypes=2, maxpars=(1, 2, UNL), maxws=(1, 2, 3), backends=('fork', 'serial'),
-                             cached='none', reqs='roots', fails='singles', sample=2500),
+                             cached='none', reqs='roots', fails='singles', sample=2000),
+                        dict(n=3, ntypes=1, maxpars=(UNL,), maxws=(2, 3), backends=('fork',), cached='all-subsets',
+                             reqs='subsets', sample=700),
                         dict(n=4, ntypes=1, maxpars=(2,), maxws=(3, 4), backends=('fork',), cached='none',
                              reqs='roots', max_edges=1, must=True)],
                  thorough=[dict(n=4, ntypes=2, maxpars=(1, 2, 3, UNL), maxws=(1, 2, 3, 16), backends=('fork', 'spawn'),
@@ -73,6 +75,7 @@ SPECS = {
                                 reqs='roots', max_edges=2, must=True)]),
         title='at every resting point executing = min(max_workers, runnable allowed by the type limits)'),
     'C10': dict(
+        real_jobfn=with_displays,
         invs=['A_C10_OnlyOwnFailures', 'A_C10_Continue', 'A_C10_NoValueForFailed', 'A_C10_CachedOk',
               'A_C10_FailFast'], props=[],
         fam=dict(quick=dict(n=3, ntypes=2, maxpars=(1, UNL), maxws=(1, 2), backends=('fork', 'spawn', 'serial'),
@@ -181,7 +184,8 @@ def make_sweeps(prop, cfgs, scheds, seed, sw):
     rnd.shuffle(prc)
     jobs = []
     for k, c in enumerate(ser[:sw['serial_cfgs']]):
-        jobs.append({'id': f'{prop}-ls{k}', 'cfg': c, 'schedule': [], 'shape_seed': rnd.randrange(10 ** 6), 'sweep': 'all'})
+        jobs.append({'id': f'{prop}-ls{k}', 'cfg': c, 'schedule': [], 'shape_seed': rnd.randrange(10 ** 6), 'sweep': 'all',
+                     'local_storage': k % 2 == 0})
     for k, (ci, h) in enumerate(prc[:sw['virt_cfgs']]):
         jobs.append({'id': f'{prop}-lv{k}', 'cfg': cfgs[ci], 'schedule': h, 'shape_seed': rnd.randrange(10 ** 6),
                      'sweep': sw['virt_lines'], 'seed': seed + k})
